@@ -31,7 +31,7 @@ var (
 	c02Positions  = []string{"fresh", "after-other-grant", "after-refresh-chain", "after-revocation"}
 	c02Presenters = []string{"owner", "foreign-confidential", "foreign-public", "owner-wrong-secret"}
 	c02Redirs     = []string{"equal", "absent", "other-registered", "percent-encoded", "host-case", "trailing-slash", "with-fragment", "unregistered", "query-added"}
-	c02Smuggles   = []string{"none", "scope-admin", "scope-wider", "audience-other", "scope-narrower", "client_id-other", "partial-consent"}
+	c02Smuggles   = []string{"none", "scope-admin", "scope-wider", "audience-other", "scope-narrower", "client_id-other", "partial-consent", "nothing-granted"}
 	c02Ages       = []string{"0", "L-5", "L+5", "2L"}
 )
 
@@ -102,6 +102,16 @@ func c02Run(c c02Case, res *WRes) {
 		params.Set("audience", "https://api.example/a https://other.example")
 		opts.GrantScopes = func(req []string) []string { return without(req, "photos") }
 		opts.GrantAud = func(req []string) []string { return without(req, "https://other.example") }
+	}
+	if c.Smuggle == "nothing-granted" {
+		if c.Flow == "code-noscope" {
+			return
+		}
+		// scopes and an audience are requested, the resource owner grants none of them
+		opts.GrantScopes = func([]string) []string { return nil }
+		opts.GrantAud = func([]string) []string { return nil }
+		granted = []string{}
+		wantAud = []string{}
 	}
 	var ao *Obs
 	if c.Flow == "dup-redirect-param" {
@@ -284,6 +294,15 @@ func c02Run(c c02Case, res *WRes) {
 	aud, _ := io.JSON["aud"].([]any)
 	if len(aud) != len(wantAud) || (len(aud) == 1 && aud[0] != wantAud[0]) {
 		viol("C02/token-audience-differs-from-grant/smuggle="+c.Smuggle, fmt.Sprintf("access token carries audience %v, granted %v", aud, wantAud), fmt.Sprint(wantAud), io.JSON)
+	}
+	// a JWT access token names scope and audience itself: they must be the granted ones as well
+	if js, ja, isJWT := jwtAccessClaims(at); isJWT {
+		if strings.Join(js, " ") != strings.Join(want, " ") {
+			viol("C02/jwt-token-scope-differs-from-grant/smuggle="+c.Smuggle, fmt.Sprintf("the JWT access token names scope %v, granted at authorization %v", js, want), strings.Join(want, " "), js)
+		}
+		if strings.Join(ja, " ") != strings.Join(wantAud, " ") {
+			viol("C02/jwt-token-audience-differs-from-grant/smuggle="+c.Smuggle, fmt.Sprintf("the JWT access token names audience %v, granted %v", ja, wantAud), strings.Join(wantAud, " "), ja)
+		}
 	}
 	if io.Str("sub") != "user-1" {
 		viol("C02/token-subject-differs-from-grant", fmt.Sprintf("access token carries subject %q, granted user-1", io.Str("sub")), "user-1", io.JSON)
